@@ -94,6 +94,27 @@ theorem C19_facet_offsets (sep : Nat) (s : Text) :
     obtain ⟨b1, _, b3, _⟩ := key y hy
     omega
 
+/-- FacetTokenizer under any filter chain (the text buffer the tokenizer appends to is rewritten in
+place by the filters — `facetChain`): whatever the filters do, every token carries (0, 0, 0) -/
+theorem C19_facet_chain_offsets (sep : Nat) (fs : List Filter) (s : Text) :
+    Contract s (facetChain sep fs s) ∧
+    ∀ t ∈ facetChain sep fs s, t.from_ = 0 ∧ t.to = 0 ∧ t.pos = 0 := by
+  have key : ∀ t ∈ facetChain sep fs s, t.from_ = 0 ∧ t.to = 0 ∧ t.pos = 0 := by
+    intro t ht
+    simp only [facetChain, List.mem_map] at ht
+    obtain ⟨x, _, rfl⟩ := ht
+    exact ⟨rfl, rfl, rfl⟩
+  refine ⟨⟨?_, ?_⟩, key⟩
+  · intro t ht
+    obtain ⟨e1, e2, _⟩ := key t ht
+    rw [e1, e2]
+    exact ⟨Nat.le_refl _, Nat.zero_le _, isBoundary_zero s, isBoundary_zero s⟩
+  · apply pairwise_of_forall_mem
+    intro x hx y hy
+    obtain ⟨a1, _, a3⟩ := key x hx
+    obtain ⟨b1, _, b3⟩ := key y hy
+    omega
+
 /-- … but the facet tokens' text is *not* the slice their offsets point to (the code never assigns
 the offsets): text `a`, second token has text `a` and offsets 0..0 -/
 theorem C19_facet_text_not_slice_counterexample :
